@@ -41,12 +41,18 @@ EXC = {"ValueError": ValueError, "KeyError": KeyError, "RuntimeError": RuntimeEr
 
 
 EXC_AS_VALUE = HErr("carried as a value, not a failure")
+INTR_AS_VALUE = Interrupt("an interrupt received earlier and passed on")
 
 
 def rv(v):
-    """JSON programs carry a token for the one value that is an exception instance: an event may SUCCEED with it (a process
-    returning a caught exception, an error object travelling through a store) - that is not a failure"""
-    return EXC_AS_VALUE if v == "@exc" else v
+    """JSON programs carry tokens for values that are exception instances: an event may SUCCEED with one (a process returning
+    a caught exception, an error object travelling through a store) - that is not a failure; and an interrupt's cause may be
+    an Interrupt somebody received and forwards"""
+    if v == "@exc":
+        return EXC_AS_VALUE
+    if v == "@intr":
+        return INTR_AS_VALUE
+    return v
 
 
 def mkexc(spec):
@@ -612,7 +618,7 @@ class Interp:
                 if hev is None:
                     continue
                 T = self._ref_proc(j, pid, True)
-                self._add_cb(pid, pc, hev, False, intr=(T, cause))
+                self._add_cb(pid, pc, hev, False, intr=(T, rv(cause)))
             elif op == "chain":
                 # a private event D chained to a shared one (src.callbacks.append(D.trigger)): D takes over src's outcome when
                 # src is processed and is an event in its own right from then on (own waiters, own unhandled-failure rule)
@@ -640,7 +646,7 @@ class Interp:
             elif op == "interrupt":
                 _, j, cause = ins
                 T = self._ref_proc(j, pid, True)
-                self._interrupt(pid, pc, T, cause)
+                self._interrupt(pid, pc, T, rv(cause))
             elif op == "neg_timeout":
                 _, d = ins
                 n_before = len(h.occs)
